@@ -68,6 +68,10 @@ type c06Op struct {
 }
 
 func t64u(t ntp.Time64) uint64 { return uint64(t.Seconds)<<32 | uint64(t.Fraction) }
+// t64After: a is later than b as times less than 68 years apart (NTP timestamps wrap at the
+// era boundary; the raw comparison of the repository's Time64.After does not apply across it).
+func t64After(a, b ntp.Time64) bool { return int64(t64u(a)-t64u(b)) > 0 }
+
 func u64t(u uint64) ntp.Time64 { return ntp.Time64{Seconds: uint32(u >> 32), Fraction: uint32(u)} }
 
 type c06Shadow struct {
@@ -106,6 +110,14 @@ func c06History(r *ev.Run, id string, rng *rand.Rand, nOps int) {
 	clk := registerScriptedClock()
 	server.VerifReset()
 	base := time.Date(2026, 3, 4, 5, 6, 7, 0, time.UTC).UnixNano() + rng.Int64N(1e9)
+	switch rng.IntN(8) {
+	case 0, 1: // the pool straddles the NTP era boundary (2036-02-07 06:28:16 UTC): raw timestamps wrap, times do not
+		base = 2085978496*1e9 - rng.Int64N(24)
+		r.Class("history across the NTP era boundary")
+	case 2:
+		base = time.Date(2036+rng.IntN(60), 7, 1, 0, 0, 0, 0, time.UTC).UnixNano() + rng.Int64N(1e9)
+		r.Class("history in NTP era 1")
+	}
 	// a small pool of timestamps 1..3 ns apart forces equal, decreasing and colliding values
 	pool := make([]int64, 4+rng.IntN(9))
 	v := base
@@ -271,7 +283,7 @@ func c06History(r *ev.Run, id string, rng *rand.Rand, nOps int) {
 						sh.tx, sh.anyGtRX, sh.updated = has.TX, false, true
 					}
 				} else {
-					if !has.TX.After(has.RX) {
+					if !t64After(has.TX, has.RX) {
 						fail("state:recorded transmit time not later than receive time after update", "update-"+op.TX, map[string]any{"rx": t64u(rx64), "kept_tx": t64u(has.TX)})
 					}
 					r.Class("update:stamp<=rx->bumped")
@@ -421,14 +433,14 @@ func c06History(r *ev.Run, id string, rng *rand.Rand, nOps int) {
 				break
 			}
 			if sh.anyGtRX {
-				if !resp.TransmitTime.After(req.OriginTime) {
+				if !t64After(resp.TransmitTime, req.OriginTime) {
 					fail("wrong-reply:interleaved transmit timestamp not later than the receive timestamp it belongs to", op.Shape, nil)
 				}
 			} else if resp.TransmitTime != sh.tx {
 				fail("wrong-reply:interleaved transmit timestamp is not the transmit time recorded for that reply", op.Shape,
 					map[string]any{"got": t64u(resp.TransmitTime), "want": t64u(sh.tx), "updated": sh.updated})
 			}
-			if (sh.updated || sh.clockGt) && !resp.TransmitTime.After(req.OriginTime) {
+			if (sh.updated || sh.clockGt) && !t64After(resp.TransmitTime, req.OriginTime) {
 				fail("wrong-reply:interleaved transmit timestamp not later than the receive timestamp it belongs to", op.Shape, nil)
 			}
 			if sh.updated {
@@ -437,7 +449,7 @@ func c06History(r *ev.Run, id string, rng *rand.Rand, nOps int) {
 				r.Class("handle:interleaved-before-update")
 			}
 		case resp.OriginTime == req.TransmitTime:
-			if clock > rxIn && !resp.TransmitTime.After(resp.ReceiveTime) {
+			if clock > rxIn && !t64After(resp.TransmitTime, resp.ReceiveTime) {
 				fail("wrong-reply:basic transmit timestamp not later than receive timestamp although the clock is past the receive time", op.Shape, nil)
 			}
 			if resp.TransmitTime != ntp.Time64FromTime(txt) {
